@@ -3,6 +3,7 @@
 From Coq Require Import List ZArith Bool Arith Lia.
 From Algo.Grammar Require Import CFG.
 From Algo.C11 Require Import Model.
+From Algo.C11 Require Proofs.
 Import ListNotations.
 
 Lemma tstr_eqb_eq u : forall v, tstr_eqb u v = true -> u = v.
@@ -223,3 +224,36 @@ Section Oracle.
   Qed.
 
 End Oracle.
+
+(** ** Membership witnesses *)
+
+Lemma split_first_nt_spec form : forall pre A suf,
+  split_first_nt form = Some (pre, A, suf) -> form = map Tm pre ++ Nt A :: suf.
+Proof.
+  induction form as [|[a|B] form IH]; intros pre A suf H; simpl in H; try discriminate.
+  - destruct (split_first_nt form) as [[[pre' A'] suf']|]; [|discriminate].
+    inversion H; subst. simpl. f_equal. now apply IH.
+  - inversion H; subst. reflexivity.
+Qed.
+
+Lemma lm_replay_derives G ps : forall form f,
+  (forall p, In p ps -> In p (prods G)) -> lm_replay ps form = Some f -> derives G form f.
+Proof.
+  induction ps as [|p ps IH]; intros form f Hps H; simpl in H.
+  - inversion H; subst. apply derives_refl.
+  - destruct (split_first_nt form) as [[[pre A] suf]|] eqn:E; [|discriminate].
+    destruct (Nat.eqb_spec A (head p)) as [->|]; [|discriminate].
+    apply split_first_nt_spec in E. subst form.
+    eapply derives_trans.
+    + apply derives_step. apply step_intro. apply Hps. now left.
+    + apply IH; [intros q Hq; apply Hps; now right|exact H].
+Qed.
+
+Theorem lm_check_sound G ps w : lm_check G ps w = true -> L G w.
+Proof.
+  unfold lm_check. intros H. apply andb_true_iff in H as [H1 H2].
+  destruct (lm_replay ps [Nt (start G)]) as [f|] eqn:E; [|discriminate].
+  apply Proofs.str_eqb_eq in H2. subst f. unfold L.
+  apply (lm_replay_derives G ps); [|exact E].
+  intros p Hp. rewrite forallb_forall in H1. apply Proofs.existsb_prod_In. now apply H1.
+Qed.
